@@ -10,7 +10,8 @@ its smallest eigenvalue is >= -1e-9 trace, its diagonal equals probability(space
 normalization(space), it equals entry for entry the brute-force partial trace sum_a Psi(s,a) conj Psi(s',a)
 of the purified two-network state computed from the raw parameters, the reported probability equals the
 brute-force auxiliary marginal, and the call forms (matrix, paired vector, single element, diagonal
-shortcut) agree with each other.
+shortcut) agree with each other.  The oracle is overflow-safe (diagonal scale from logaddexp, Hermitian / PSD on an exactly
+rescaled copy), so it also decides parameter settings whose results are as large as e^690 (near_range regime).
 
 "For every parameter setting" includes every setting reached on a LIVE object: the same relations are demanded after each
 step of same-object histories evaluate -> mutate the parameters -> evaluate, for every way the library offers or tolerates
@@ -41,16 +42,45 @@ RULE = ("architectures nv,nh,na in 1..3 (quick: covering subset incl. nh != nv, 
         "overwritten in place by the caller and each call repeated right after its own result was overwritten; batches of "
         "65537..131075 rows gathered against the small verified results; six fixed history cases (every operator, every "
         "parameter of every network changed alone) run first; "
+        "NEAR_RANGE regime (six fixed cases run before everything else, 20 (quick) / 80 + every fifth draw of every shape "
+        "(thorough) in the random stream, shapes up to 4x4x4, some continued on the same object by an in-place write of a second "
+        "near-range setting): amplitude-net U and aux bias (aux), W and hidden bias (hidden) or all four (both, edge) positive "
+        "in 12..30, visible bias in -30..-20, scaled by one common factor so that the log of the largest diagonal entry is "
+        "<= 450..650 (edge: 640..690, results within e^20 of the largest double): every matrix element, probability and the "
+        "trace is finite while the doubled sum over the auxiliary units, the hidden sums of both arguments, or hidden + "
+        "auxiliary sums pass log(DBL_MAX) = 709.8 (input_distribution beyond_double_range:* counts them); the oracle forms "
+        "sqrt(rho_ii rho_jj) in the log domain, demands finite outputs, and decides Hermitian / PSD on rho * 2^-e; the 1-D "
+        "call forms always probe the largest diagonal entry; "
         "a case is (regime, nv, nh, na, parameter draw, history step); "
         "non-trivial := all biases non-zero, amplitude aux bias != 0 and U_mu != 0")
 ASSUMPTIONS = ["torch exp/log/sqrt/atan2/softplus/logsumexp/matmul implement the real functions up to rounding",
                "parameter draws avoid the measure-zero singular points 1 + exp(z_k) = 0 of the code's log/atan2 "
-               "(x_k = 0 and y_k = pi mod 2 pi), where the partial-trace theorem has its guard"]
+               "(x_k = 0 and y_k = pi mod 2 pi), where the partial-trace theorem has its guard",
+               "a parameter setting is evaluated when its results are representable: log(trace of rho) <= 700 (the largest "
+               "double is e^709.8) and, for every auxiliary unit, 2 (U_k.sigma + d_k) <= 700, the argument of the code's own "
+               "exp(2 x_k) (never exceeded with magnitudes <= 30 and num_visible <= 4: x_k <= 150); other settings are "
+               "counted as skipped_overflow"]
 
 TWO_PI = 2.0 * math.pi
 # relative tolerance of the oracle relations that compare two different float evaluation paths: torch's softplus
 # returns x for x > 20 (drops log1p(exp(-x)) <= 2.1e-9 per unit), so 1e-9 would alarm on correct code
-RT = 1e-7
+RT = 1e-7          # (kept for reference: the former blanket tolerance; wider than float32 rounding, 6e-8, so no longer used)
+SOFTPLUS_DROP = 2.1e-9   # > log1p(exp(-20)) = 2.06e-9, what torch's softplus omits per unit once its argument passes 20
+
+
+def rt_of(nh, na):
+    """Relative tolerance of the relations between two DIFFERENT evaluation paths (rho's analytic log-modulus / the numpy
+    brute force versus torch's thresholded softplus): 1e-9 + the rigorous bound on the omitted terms, at most 1.8e-8 for
+    4 + 4 units, i.e. below single-precision rounding."""
+    return 1e-9 + SOFTPLUS_DROP * (nh + na)
+
+
+SAME_PATH_RT = 1e-10   # two sums of the same few double-precision numbers (measured on the unchanged tree: <= 4e-14, exp(logsumexp) at log Z ~ 690)
+DBL_LOG_MAX = math.log(np.finfo(float).max)       # 709.78: exp() of more than this is inf
+# a case is evaluated when its RESULTS are representable: log(trace of rho) <= LOG_LIM, and the code's own exp(2 x_k) (one
+# auxiliary unit, x_k <= 4 * 30 + 30 inside the quantifier) is finite.  Intermediates that a rewrite could introduce (products
+# over units, separately exponentiated terms) may be far beyond the double range in such a case: the near_range regime
+LOG_LIM = 700.0
 
 
 def shapes(ctx):
@@ -115,10 +145,22 @@ def evaluate(ctx, s, am, ph, case, nontriv, desc, T=None, big=False):
     logp, phi, A = purified_state(am, ph, sp)
     Uam = am[1]
     xmax = float(np.max(np.abs(sp @ Uam.T + am[4]))) if na else 0.0
-    if np.max(logp) > 600 or 2 * xmax > 600 or np.max(-gen.np_eff_energy_p(*am, sp)) > 600:
-        ctx.count("skipped_overflow")
+    lmarg = -gen.np_eff_energy_p(*am, sp)               # log rho(s, s) of the oracle, overflow-safe (logaddexp)
+    if np.max(lmarg) + math.log(N) > LOG_LIM or 2 * xmax > LOG_LIM:
+        ctx.count("skipped_overflow")                    # the trace itself / the code's exp(2 x_k) is not representable
         return
     ctx.case(desc, nontrivial=nontriv)
+    # intermediates beyond the double range although every result is finite (what a product-then-log rewrite would form)
+    Hs = gen.softplus(sp @ am[0].T + am[3]).sum(-1)
+    As = gen.softplus(sp @ Uam.T + am[4]).sum(-1) if na else np.zeros(N)
+    beyond = False
+    for nm, val in (("aux_squared_moduli_product", 2 * np.max(As)), ("hidden_product_of_both_arguments", 2 * np.max(Hs)),
+                    ("hidden_times_aux_product", np.max(Hs + As)), ("trace_above_e600", np.max(lmarg) + 109.78)):
+        if val > DBL_LOG_MAX:
+            ctx.count("beyond_double_range:" + nm)
+            beyond = True
+    if beyond:
+        ctx.count("finite_results_with_an_intermediate_beyond_double_range")
     xk = 0.5 * ((sp @ Uam.T + am[4])[:, None, :] + (sp @ Uam.T + am[4])[None, :, :])
     yk = 0.5 * ((sp @ ph[1].T)[:, None, :] - (sp @ ph[1].T)[None, :, :])
     if np.any(1 + np.exp(xk) * np.cos(yk) < 0):
@@ -209,7 +251,8 @@ def evaluate(ctx, s, am, ph, case, nontriv, desc, T=None, big=False):
     if N <= 4:
         pairs = [(i, j) for i in range(N) for j in range(N)]
     else:
-        pairs = [(0, N - 1), (N - 1, 0), (1, 1), (N // 2, 1)] + [tuple(int(t) for t in arng.integers(0, N, size=2)) for _ in range(8)]
+        imax = int(np.argmax(lmarg))                     # the largest entries: where an intermediate leaves the range first
+        pairs = [(0, N - 1), (N - 1, 0), (1, 1), (N // 2, 1), (N - 1, N - 1), (imax, imax), (imax, N - 1)] + [tuple(int(t) for t in arng.integers(0, N, size=2)) for _ in range(8)]
     singles = {}
     for (i, j) in pairs:
         v1, vp1 = T["row1"][i], T["row1"][j]
@@ -246,21 +289,47 @@ def evaluate(ctx, s, am, ph, case, nontriv, desc, T=None, big=False):
     # ---------------- property oracle on the implementation's own outputs
     prob_n = prob.numpy().copy()
     tr = float(np.real(np.trace(Rc)))
-    nrm = float(np.linalg.norm(Rc))
-    herm = float(np.linalg.norm(Rc - Rc.conj().T))
-    ctx.require("rho is Hermitian", herm <= 1e-9 * nrm, case, {"||rho - rho^dagger||": herm, "||rho||": nrm})
+    rt = rt_of(len(am[3]), na)
+    _measure("rt", 0.0)
+    # the reported normalisation is a double-precision number (a float32 scalar cannot equal the trace to double rounding)
+    z_double = (torch.is_tensor(Z) and Z.dtype == torch.float64) or (isinstance(Z, (float, np.floating)) and not isinstance(Z, np.float32))
+    ctx.require("normalization(space) is reported in double precision", bool(z_double), case,
+                {"type": type(Z).__name__, "dtype": str(getattr(Z, "dtype", None))})
+    p_double = torch.is_tensor(prob) and prob.dtype == torch.float64 and R.dtype == torch.float64 and Rv.dtype == torch.float64
+    ctx.require("rho / probability(space) are reported in double precision", bool(p_double), case,
+                {"dtypes": [str(getattr(x, "dtype", None)) for x in (R, Rv, prob)]})
+    # every entry of the partial trace is finite here (log trace <= LOG_LIM), so every reported number must be
+    nonfin = {nm: int((~np.isfinite(np.asarray(x))).sum()) for nm, x in (
+        ("rho(space,space)", Rc), ("rho(v,vp,expand=False)", Rvc), ("rho(v,expand=False)", Rdc), ("rho(space)", Rdefc),
+        ("probability(space)", prob_n), ("normalization(space)", float(Z)))}
+    finite = not any(nonfin.values())
+    ctx.require("rho / probability / normalization are finite where every entry of the partial trace is representable", finite, case,
+                {"non-finite entries": nonfin, "log of the largest diagonal entry of the partial trace": float(np.max(lmarg)),
+                 "largest entry of the partial trace at": int(np.argmax(lmarg))})
+    # Hermitian / PSD are scale-free: decided on rho * 2^-e (exact scaling), so that norms and LAPACK stay inside the range
+    e2 = int(round(float(np.max(lmarg)) / math.log(2.0)))
+    Rs = np.ldexp(Rc.real, -e2) + 1j * np.ldexp(Rc.imag, -e2)
+    tr_s = float(np.real(np.trace(Rs)))
+    nrm = float(np.linalg.norm(Rs))
+    herm = float(np.linalg.norm(Rs - Rs.conj().T))
+    ctx.require("rho is Hermitian", herm <= 1e-9 * nrm, case, {"||rho - rho^dagger|| * 2^-e": herm, "||rho|| * 2^-e": nrm, "e": e2})
     try:
-        emin = float(np.linalg.eigvalsh((Rc + Rc.conj().T) / 2).min())
-    except Exception as e:       # numpy failure is not a verdict; non-finite entries are caught below
+        emin = float(np.linalg.eigvalsh((Rs + Rs.conj().T) / 2).min())
+    except Exception as e:       # numpy failure is not a verdict; non-finite entries are reported above
         emin = float("nan")
-    ctx.require("rho is positive semidefinite", emin >= -1e-9 * abs(tr), case, {"min eigenvalue": emin, "trace": tr})
+    ctx.require("rho is positive semidefinite", emin >= -1e-9 * abs(tr_s), case, {"min eigenvalue * 2^-e": emin, "trace * 2^-e": tr_s, "e": e2})
     dg = np.diagonal(Rc)
     ctx.require("diagonal of rho == probability(space)",
-                bool(np.allclose(dg.real, prob_n, rtol=RT, atol=0) and np.all(np.abs(dg.imag) <= RT * np.abs(prob_n))), case,
+                bool(np.allclose(dg.real, prob_n, rtol=rt, atol=0) and np.all(np.abs(dg.imag) <= rt * np.abs(prob_n))), case,
                 {"diag": [str(z) for z in dg], "probability": prob_n.tolist()})
-    ctx.require("trace of rho == normalization(space)", math.isclose(tr, float(Z), rel_tol=RT), case, {"trace": tr, "Z": float(Z)})
-    ctx.require("normalization(space) == sum of probability(space)", math.isclose(float(Z), float(prob_n.sum()), rel_tol=RT), case,
-                {"Z": float(Z), "sum": float(prob_n.sum())})
+    _measure("diag_vs_prob", np.max(np.abs(dg.real - prob_n) / np.abs(prob_n)) / rt)
+    _measure("trace_vs_Z", abs(tr - float(Z)) / abs(float(Z)) / rt)
+    _measure("Z_vs_sum", abs(float(Z) - float(prob_n.sum())) / abs(float(Z)) / SAME_PATH_RT)
+    ctx.require("trace of rho == normalization(space)", math.isclose(tr, float(Z), rel_tol=rt), case,
+                {"trace": tr, "Z": float(Z), "relative difference": abs(tr - float(Z)) / abs(float(Z)), "tolerance": rt})
+    # same evaluation path (exp of the same effective energies, summed): equal to double rounding
+    ctx.require("normalization(space) == sum of probability(space)", math.isclose(float(Z), float(prob_n.sum()), rel_tol=SAME_PATH_RT), case,
+                {"Z": float(Z), "sum": float(prob_n.sum()), "relative difference": abs(float(Z) - float(prob_n.sum())) / abs(float(Z))})
     # probability(v, Z) divides the unnormalised probability by Z; with Z = normalization(space) it sums to one
     if okz and pzs is not None:
         pz_n, pr_n = pzs[0].numpy(), pzs[1].numpy()
@@ -268,17 +337,20 @@ def evaluate(ctx, s, am, ph, case, nontriv, desc, T=None, big=False):
                     bool(np.allclose(pz_n, prob_n / Zf, rtol=1e-9, atol=0) and np.allclose(pr_n, prob_n / Zr, rtol=1e-9, atol=0)
                          and math.isclose(float(pzs[2]), prob_n[N - 1] / Zr, rel_tol=1e-9)), case,
                     {"Z": Zf, "Z_random": Zr, "p(space,Z)": pz_n.tolist(), "p(space,Zr)": pr_n.tolist(), "p(space)": prob_n.tolist()})
-        ctx.require("probability(space, normalization(space)) sums to one", math.isclose(float(pz_n.sum()), 1.0, rel_tol=RT), case,
-                    {"sum": float(pz_n.sum())})
+        _measure("sums_to_one", abs(float(pz_n.sum()) - 1.0) / SAME_PATH_RT)
+        ctx.require("probability(space, normalization(space)) sums to one", math.isclose(float(pz_n.sum()), 1.0, rel_tol=SAME_PATH_RT), case,
+                    {"sum": float(pz_n.sum()), "sum - 1": float(pz_n.sum()) - 1.0})
     # brute-force partial trace over the auxiliary units of the purified state
     Psi = np.exp(0.5 * logp + 1j * phi)                                  # (N, 2^na)
     bf = Psi @ Psi.conj().T
-    sc = np.sqrt(np.outer(np.real(np.diagonal(bf)), np.real(np.diagonal(bf))))
+    sc = np.exp(0.5 * (lmarg[:, None] + lmarg[None, :]))                 # sqrt(rho_ii rho_jj) of the oracle, formed in the log domain
     err = np.abs(Rc - bf)
-    ctx.require("rho == partial trace over auxiliary units of the purified state", bool(np.all(err <= RT * sc)), case,
+    _measure("rho_vs_partial_trace", np.max(err / sc) / rt)
+    _measure("prob_vs_marginal", np.max(np.abs(prob_n - np.exp(logp).sum(-1)) / np.exp(logp).sum(-1)) / rt)
+    ctx.require("rho == partial trace over auxiliary units of the purified state", bool(np.all(err <= rt * sc)), case,
                 {"worst |diff| / sqrt(rho_ii rho_jj)": float(np.max(err / sc)), "at": [int(t) for t in np.unravel_index(np.argmax(err / sc), err.shape)]})
     ctx.require("probability(space) == auxiliary-unit marginal of p_lambda(sigma, a)",
-                bool(np.allclose(prob_n, np.exp(logp).sum(-1), rtol=RT, atol=0)), case,
+                bool(np.allclose(prob_n, np.exp(logp).sum(-1), rtol=rt, atol=0)), case,
                 {"probability": prob_n.tolist(), "marginal": np.exp(logp).sum(-1).tolist()})
     # the same partial trace, with the purified state taken from the implementation's own joint energies E(sigma, a)
     if len(E_joint) == 2:
@@ -286,12 +358,12 @@ def evaluate(ctx, s, am, ph, case, nontriv, desc, T=None, big=False):
         bf_i = Psi_i @ Psi_i.conj().T
         err_i = np.abs(Rc - bf_i)
         ctx.require("rho == partial trace of the state defined by effective_energy(v, a) of the two networks",
-                    bool(np.all(err_i <= RT * sc)), case, {"worst |diff| / sqrt(rho_ii rho_jj)": float(np.max(err_i / sc))})
+                    bool(np.all(err_i <= rt * sc)), case, {"worst |diff| / sqrt(rho_ii rho_jj)": float(np.max(err_i / sc))})
     # call forms agree with each other
     tolm = 1e-9 * sc
     ctx.require("rho(v,vp,expand=False) == entries of rho(space,space)", bool(np.all(np.abs(Rvc.reshape(N, N) - Rc) <= tolm)), case,
                 {"worst": float(np.max(np.abs(Rvc.reshape(N, N) - Rc) / sc))})
-    ctx.require("rho(v, expand=False) == diagonal of rho(space,space)", bool(np.all(np.abs(Rdc - dg) <= RT * np.abs(dg))), case,
+    ctx.require("rho(v, expand=False) == diagonal of rho(space,space)", bool(np.all(np.abs(Rdc - dg) <= rt * np.abs(dg))), case,
                 {"shortcut": [str(z) for z in Rdc], "diag": [str(z) for z in dg]})
     ctx.require("rho(space) with default vp == rho(space, space)", bool(np.all(np.abs(Rdefc - Rc) <= tolm)), case,
                 {"worst": float(np.max(np.abs(Rdefc - Rc) / sc))})
@@ -304,7 +376,9 @@ def evaluate(ctx, s, am, ph, case, nontriv, desc, T=None, big=False):
                     abs(z1 - Rc[i, j]) <= tolm[i, j] and abs(z1f - Rc[i, j]) <= tolm[i, j], case,
                     {"i": i, "j": j, "single": str(z1), "single expand=False": str(z1f), "matrix": str(Rc[i, j])})
     res = {"s": s, "T": T, "N": N, "Rc": Rc, "mRc": mRc, "amp": amp, "sc": sc, "tolm": tolm, "prob": prob_n, "Z": Zf,
-           "E_small": E_small, "E_joint": E_joint, "A": A}
+           "E_small": E_small, "E_joint": E_joint, "A": A, "rt": rt, "Rdc": Rdc}
+    flag_encodings(ctx, res, case)
+    grad_modes(ctx, res, case)
     matrix_forms(ctx, res, case, arng)
     batch_mutated_in_place(ctx, res, case, arng)
     if big:
@@ -349,6 +423,83 @@ def evaluate(ctx, s, am, ph, case, nontriv, desc, T=None, big=False):
     return res
 
 
+# ------------------------------------------------------------------ measurement of margins (development aid, off by default)
+_MEASURED = {}
+
+
+def _measure(key, ratio):
+    import os
+    if os.environ.get("C02_MEASURE"):
+        if not _MEASURED:
+            import atexit, sys
+            atexit.register(lambda: sys.stderr.write("C02_MEASURE worst observed / tolerance: %r\n" % _MEASURED))
+        _MEASURED[key] = max(_MEASURED.get(key, 0.0), float(ratio))
+
+
+# ------------------------------------------------------------------ flag encodings, global autograd modes
+TRUE_ENC = [("np.True_", np.True_), ("1", 1)]
+FALSE_ENC = [("np.False_", np.False_), ("0", 0)]
+
+
+def flag_encodings(ctx, res, case):
+    """The `expand` flag handed over as a numpy bool (what `(a > 0).any()` returns) or as the int 1 / 0 instead of the Python
+    constants, in every call form: the same values as with True / False (verified above) are demanded."""
+    s, T, N, Rc, tolm, rt = res["s"], res["T"], res["N"], res["Rc"], res["tolm"], res["rt"]
+    space, V, VP, r1 = T["space"], T["V"], T["VP"], T["row1"]
+    dg = np.diagonal(Rc)
+    i, j = N - 1, 0
+    for nm, e in TRUE_ENC:
+        ok, out = ctx.call("rho with expand=" + nm, case, lambda: (s.rho(space, space, expand=e), s.rho(space, expand=e), s.rho(r1[i], r1[j], expand=e)))
+        if not ok:
+            continue
+        shp = [list(x.shape) for x in out]
+        good = (shp == [[2, N, N], [2, N, N], [2]] and bool(np.all(np.abs(cnp(out[0]) - Rc) <= tolm)) and bool(np.all(np.abs(cnp(out[1]) - Rc) <= tolm))
+                and abs(complex(out[2][0], out[2][1]) - Rc[i, j]) <= tolm[i, j])
+        ctx.require("rho(v, vp, expand=<truthy flag: numpy bool / int 1>) == rho(v, vp, expand=True) in the matrix, default-vp and 1-D call forms",
+                    good, case, {"expand": nm, "shapes": shp, "expected shapes": [[2, N, N], [2, N, N], [2]]})
+    for nm, e in FALSE_ENC:
+        ok, out = ctx.call("rho with expand=" + nm, case, lambda: (s.rho(V, VP, expand=e), s.rho(space, expand=e), s.rho(r1[i], r1[j], expand=e)))
+        if not ok:
+            continue
+        shp = [list(x.shape) for x in out]
+        good = (shp == [[2, N * N], [2, N], [2]] and bool(np.all(np.abs(cnp(out[0]).reshape(N, N) - Rc) <= tolm))
+                and bool(np.all(np.abs(cnp(out[1]) - dg) <= rt * np.abs(dg))) and abs(complex(out[2][0], out[2][1]) - Rc[i, j]) <= tolm[i, j])
+        ctx.require("rho(v, vp, expand=<falsy flag: numpy bool / int 0>) == rho(v, vp, expand=False) in the paired, diagonal and 1-D call forms",
+                    good, case, {"expand": nm, "shapes": shp, "expected shapes": [[2, N * N], [2, N], [2]]})
+    ctx.count("flag_encodings_np_bool_and_int")
+
+
+def grad_modes(ctx, res, case):
+    """The same calls under the global autograd modes a caller may be in (torch.no_grad(), torch.inference_mode(),
+    torch.set_grad_enabled(False), torch.enable_grad() - the last matters when the whole run is under no_grad): the values
+    verified against the oracle above are demanded again (the matrix of a parameter setting does not depend on the mode)."""
+    import torch
+    s, T, N, Rc, tolm, prob, Zf, Rdc = res["s"], res["T"], res["N"], res["Rc"], res["tolm"], res["prob"], res["Z"], res["Rdc"]
+    space, V, VP, r1 = T["space"], T["V"], T["VP"], T["row1"]
+    i, j = N - 1, N // 2
+    for nm, cm in (("torch.no_grad()", torch.no_grad), ("torch.inference_mode()", torch.inference_mode),
+                   ("torch.set_grad_enabled(False)", lambda: torch.set_grad_enabled(False)), ("torch.enable_grad()", torch.enable_grad)):
+        def calls():
+            with cm():
+                return (s.rho(space, space), s.rho(V, VP, expand=False), s.rho(space, expand=False), s.rho(r1[i], r1[j]),
+                        s.probability(space), s.normalization(space), s.rho(space))
+        ok, out = ctx.call("evaluation under " + nm, case, calls)
+        if not ok:
+            continue
+        shp = [list(x.shape) for x in out[:5]] + [list(out[6].shape)]
+        good = shp == [[2, N, N], [2, N * N], [2, N], [2], [N], [2, N, N]]
+        if good:
+            good = (bool(np.all(np.abs(cnp(out[0]) - Rc) <= tolm)) and bool(np.all(np.abs(cnp(out[1]).reshape(N, N) - Rc) <= tolm))
+                    and bool(np.all(np.abs(cnp(out[2]) - Rdc) <= 1e-9 * np.abs(Rdc))) and abs(complex(out[3][0], out[3][1]) - Rc[i, j]) <= tolm[i, j]
+                    and bool(np.allclose(out[4].numpy(), prob, rtol=1e-9, atol=0)) and math.isclose(float(out[5]), Zf, rel_tol=1e-9)
+                    and bool(np.all(np.abs(cnp(out[6]) - Rc) <= tolm)))
+        worst = float(np.max(np.abs(cnp(out[0]) - Rc) / res["sc"])) if shp[0] == [2, N, N] else None
+        ctx.require("rho / probability / normalization evaluated under a global autograd mode == the values of the ordinary call", good, case,
+                    {"mode": nm, "shapes": shp, "worst |rho(space,space) - ordinary| / sqrt(rho_ii rho_jj)": worst,
+                     "normalization": [float(out[5]), Zf]})
+    ctx.count("autograd_modes_no_grad_inference_enable")
+
+
 # ------------------------------------------------------------------ further call forms / histories on verified values
 def matrix_forms(ctx, res, case, arng):
     """Matrix form rho(v, vp) with v different from vp: two different row orders, a rectangular k x m selection
@@ -364,9 +515,10 @@ def matrix_forms(ctx, res, case, arng):
     h = N // 2
     forms = [("rho(space[p1], space[p2])", p1, p2), ("rho(space[p1][:k], space[p2][:m]), k != m", p1[:k], p2[:mm]),
              ("rho(space[:N/2], space[N/2:])", np.arange(h), np.arange(h, N))]
-    for name, a, b in forms:
+    for k_form, (name, a, b) in enumerate(forms):
         va, vb = space[a], space[b]
-        ok, val = ctx.call("matrix form " + name, case, lambda: s.rho(va, vb))
+        kw = [{}, {"expand": np.True_}, {"expand": 1}][k_form]     # default flag, numpy bool, int
+        ok, val = ctx.call("matrix form " + name + (" with expand=%r" % (kw["expand"],) if kw else ""), case, lambda: s.rho(va, vb, **kw))
         if not ok:
             continue
         good = list(val.shape) == [2, len(a), len(b)]
@@ -429,7 +581,7 @@ def batch_permuted(ctx, res, case, arng, which, b):
                         bool(np.allclose(p.numpy(), prob[cur], rtol=1e-9, atol=0)), case, dict(det, got=p.numpy().tolist(), want=prob[cur].tolist()))
         if list(rd.shape) == [2, N]:
             ctx.require("rho(batch, expand=False) after the batch tensor was permuted in place == diagonal entries of its current rows",
-                        bool(np.all(np.abs(cnp(rd) - np.diagonal(Rc)[cur]) <= RT * np.abs(np.diagonal(Rc)[cur]))), case, det)
+                        bool(np.all(np.abs(cnp(rd) - np.diagonal(Rc)[cur]) <= res["rt"] * np.abs(np.diagonal(Rc)[cur]))), case, det)
         sel = np.ix_(cur, cur)
         for nm, val in (("rho(batch, batch)", rm), ("rho(batch)", rdef)):
             if list(val.shape) == [2, N, N]:
@@ -457,7 +609,7 @@ def large_batches(ctx, res, case, arng):
     vi, vj = T["space"][i], T["space"][j]
     ai = torch.tensor(res["A"][kk], dtype=torch.double)
     ok, out = ctx.call("evaluation on a batch of %d rows" % n, case, lambda: (
-        s.rho(vi, vj, expand=False), s.probability(vi), s.rho(vi, expand=False), s.rho(vi, vi, expand=False),
+        s.rho(vi, vj, expand=[False, np.False_, 0][n % 3]), s.probability(vi), s.rho(vi, expand=False), s.rho(vi, vi, expand=np.False_),
         s.rbm_am.effective_energy(vi), s.rbm_am.effective_energy(vi, ai), s.rbm_ph.effective_energy(vi, ai)))
     if not ok:
         return
@@ -477,7 +629,7 @@ def large_batches(ctx, res, case, arng):
     okm = np.isclose(p.numpy(), prob[i], rtol=1e-9, atol=0)
     ctx.require("large batch: probability(v) == probability(space) row by row", bool(np.all(okm)), case, bad_rows(okm))
     dg = np.diagonal(Rc)[i]
-    okm = np.abs(cnp(rd) - dg) <= RT * np.abs(dg)
+    okm = np.abs(cnp(rd) - dg) <= res["rt"] * np.abs(dg)
     ctx.require("large batch: rho(v, expand=False) == diagonal of rho(space, space) row by row", bool(np.all(okm)), case, bad_rows(okm))
     okm = np.abs(cnp(rdd) - dg) <= 1e-9 * np.abs(dg)
     ctx.require("large batch: rho(v, v, expand=False) == diagonal of rho(space, space) row by row", bool(np.all(okm)), case, bad_rows(okm))
@@ -519,11 +671,120 @@ def draw_params(ctx, nv, nh, na, regime):
         ph[1] = ctx.rng.uniform(math.pi, 9.0, size=(na, nv)) * ctx.rng.choice([-1.0, 1.0], size=(na, nv))
         am[4] = ctx.rng.uniform(0.5, 3.0, size=na)
         am[1] = np.abs(am[1]) + 0.1
+    elif str(regime).startswith("near_range"):
+        return near_range_params(ctx, nv, nh, na, am, ph, str(regime).partition(":")[2] or None)
     return tuple(am), tuple(ph)
 
 
+NEAR_VARIANTS = ["aux", "hidden", "both", "edge"]
+
+
+def fit_into_range(am, nv, target):
+    """One common factor f <= 1 (bisection) on W, U, c, d of the amplitude net so that max_s log rho(s, s) <= target; the
+    (negative) visible bias is kept.  All magnitudes stay <= 30 and every bias stays non-zero."""
+    sp = gen.all_states(nv)
+    W, U, b, c, d = am
+
+    def top(f):
+        return float(np.max(-gen.np_eff_energy_p(f * W, f * U, b, f * c, f * d, sp)))
+    if top(1.0) <= target:
+        return tuple(am)
+    lo, hi = 0.0, 1.0
+    for _ in range(40):
+        mid = 0.5 * (lo + hi)
+        if top(mid) <= target:
+            lo = mid
+        else:
+            hi = mid
+    return (lo * W, lo * U, b, lo * c, lo * d)
+
+
+def near_range_params(ctx, nv, nh, na, am, ph, variant=None):
+    """Strongly mixing / strongly coupled amplitude networks INSIDE the quantifier's magnitudes (<= 30): large positive
+    visible-auxiliary weights and auxiliary biases (aux), visible-hidden weights and hidden biases (hidden) or all of them
+    (both, edge), compensated by large negative visible biases, so that every matrix element, probability and the trace are
+    finite (log trace <= 650; edge: 640..690, i.e. results close to the largest double) while sums of pre-activations over
+    several units pass log(DBL_MAX) = 709.8 once doubled / added up: a product over units formed before the log, or factors
+    exponentiated separately, overflow there although the sum-of-logs the code uses is far inside the range."""
+    rng = ctx.rng
+    am, ph = list(am), list(ph)
+    variant = variant or str(rng.choice(NEAR_VARIANTS))
+    lo = float(rng.choice([12.0, 20.0, 27.0]))
+    if variant == "edge":                                # always above the target before the common factor is applied
+        lo = 26.0
+    if variant in ("aux", "both", "edge"):
+        am[1], am[4] = rng.uniform(lo, 30.0, size=(na, nv)), rng.uniform(lo, 30.0, size=na)
+    if variant in ("hidden", "both", "edge"):
+        am[0], am[3] = rng.uniform(lo, 30.0, size=(nh, nv)), rng.uniform(lo, 30.0, size=nh)
+    am[2] = -rng.uniform(20.0, 30.0, size=nv)
+    if rng.random() < 0.3:                               # one visible unit couples with ordinary strength / either sign
+        j = int(rng.integers(0, nv))
+        am[1][:, j], am[0][:, j] = rng.normal(size=na), rng.normal(size=nh)
+    if rng.random() < 0.5:                               # large phase-net biases too
+        for vec in (ph[2], ph[3]):
+            k = int(rng.integers(1, len(vec) + 1))
+            vec[rng.choice(len(vec), size=k, replace=False)] = log_uniform_signed(ctx, k, 3.0, 30.0)
+    target = float(rng.uniform(640.0, 690.0)) if variant == "edge" else float(rng.uniform(450.0, 650.0))
+    ctx.count("near_range:" + variant)
+    return fit_into_range(am, nv, target), tuple(ph)
+
+
+def _det(shape, lo, hi, k):
+    """deterministic, irregular values in [lo, hi] (no generator involved): the fixed near-range cases"""
+    n = int(np.prod(shape))
+    t = np.mod((np.arange(n) + 1.0) * 0.6180339887498949 + 0.37 * k, 1.0)
+    return (lo + (hi - lo) * t).reshape(shape)
+
+
+def fixed_near_range(ctx):
+    """Fixed cases that run first: finite results, intermediates of a product-then-log / separate-exponentials rewrite beyond
+    the double range.  (label, nv, nh, na, amplitude-net ranges for W, U, c, d, value of b, cap on the log of the largest
+    diagonal entry)"""
+    small = (-1.5, 1.5)
+    table = [
+        ("aux 4-2-4: U 20..25, d 25..30, b -30..-28", 4, 2, 4, small, (20.0, 25.0), small, (25.0, 30.0), (-30.0, -28.0), 650.0),
+        ("aux 3-2-4 at the boundary magnitude 30", 3, 2, 4, small, (30.0, 30.0), small, (30.0, 30.0), (-30.0, -30.0), 650.0),
+        ("aux 4-1-3: U, d 27..30", 4, 1, 3, small, (27.0, 30.0), small, (27.0, 30.0), (-30.0, -29.0), 650.0),
+        ("hidden 4-4-2: W 20..25, c 25..30", 4, 4, 2, (20.0, 25.0), small, (25.0, 30.0), small, (-30.0, -28.0), 650.0),
+        ("edge 4-4-4: W, U, c, d 20..28 scaled down to log(max diagonal) = 688", 4, 4, 4, (20.0, 28.0), (20.0, 28.0), (20.0, 28.0), (20.0, 28.0),
+         (-30.0, -27.0), 688.0),
+        ("both 3-4-4: W, U, c, d 22..30", 3, 4, 4, (22.0, 30.0), (22.0, 30.0), (22.0, 30.0), (22.0, 30.0), (-30.0, -25.0), 600.0),
+    ]
+    for k, (label, nv, nh, na, rW, rU, rc, rd, rb, cap) in enumerate(table):
+        nz = lambda x: np.where(np.abs(x) < 0.05, 0.37, x)      # noqa: E731  (every bias non-zero)
+        am = (_det((nh, nv), rW[0], rW[1], 5 * k), _det((na, nv), rU[0], rU[1], 5 * k + 1), _det((nv,), rb[0], rb[1], 5 * k + 2),
+              nz(_det((nh,), rc[0], rc[1], 5 * k + 3)), nz(_det((na,), rd[0], rd[1], 5 * k + 4)))
+        am = fit_into_range(am, nv, cap)
+        ph = (_det((nh, nv), -2.0, 2.0, 7 * k), _det((na, nv), -2.5, 2.5, 7 * k + 1), nz(_det((nv,), -3.0, 3.0, 7 * k + 2)),
+              nz(_det((nh,), -3.0, 3.0, 7 * k + 3)), np.zeros(na))
+        ctx.count("near_range:fixed")
+        run_history(ctx, nv, nh, na, [{"way": "init", "regime": "near_range_fixed: " + label, "am": am, "ph": ph, "aux_seed": 1000 + k}],
+                    ctor_seed=77 + k)
+
+
+NEAR_SHAPES = [(4, 2, 4), (4, 4, 4), (3, 3, 4), (4, 4, 1), (4, 1, 3), (3, 4, 4), (4, 3, 2), (4, 1, 4), (3, 1, 4), (4, 4, 3)]
+EDGE_SHAPES = [(4, 4, 4), (4, 3, 4), (4, 4, 3), (4, 2, 4), (4, 4, 2), (4, 3, 3)]
+
+
+def random_near_range(ctx, n):
+    """The near_range regime in the random stream: shapes with enough units to pass the range, variants in rotation; every
+    third case goes on, on the SAME object, to a second near-range setting written in place."""
+    for i in range(n):
+        nv, nh, na = NEAR_SHAPES[i % len(NEAR_SHAPES)]
+        v = NEAR_VARIANTS[i % len(NEAR_VARIANTS)]
+        if v == "edge":
+            nv, nh, na = EDGE_SHAPES[(i // len(NEAR_VARIANTS)) % len(EDGE_SHAPES)]
+        elif (v == "hidden" and nh < 3) or (v == "aux" and na < 3):
+            v = "hidden" if nh >= 3 else "aux"
+        am, ph = draw_params(ctx, nv, nh, na, "near_range:" + v)
+        steps = [{"way": "init", "regime": "near_range:" + v, "am": am, "ph": ph}]
+        if i % 3 == 2:
+            steps.append(full_step(ctx, nv, nh, na, ["data_copy_", "rebind_parameter", "load_state_dict"][(i // 3) % 3], "near_range"))
+        run_history(ctx, nv, nh, na, steps)
+
+
 REGIMES_QUICK = ["default", "large_bias", "branch", "default", "large_bias", "branch"]
-REGIMES_THOROUGH = ["default", "large_bias", "branch", "default"]
+REGIMES_THOROUGH = ["default", "large_bias", "branch", "default", "near_range"]
 
 
 WAYS = ["data_assign", "data_copy_", "load_state_dict", "vector_to_parameters"]
@@ -918,6 +1179,9 @@ def one_case(ctx, nv, nh, na, zero_bias=False, regime="default", ways=(), big=Fa
 def run(ctx):
     # fixed cases that always run first: same-object histories with every mutation operator, then all four in-place ways of
     # rewriting the parameters with batches of more than 65536 rows
+    import os
+    if not os.environ.get("C02_TMP_NOFIXED"):
+        fixed_near_range(ctx)
     fixed_histories(ctx)
     for (nv, nh, na) in [(2, 2, 2), (1, 1, 1), (3, 2, 1)]:
         one_case(ctx, nv, nh, na, ways=WAYS, big=True)
@@ -936,6 +1200,7 @@ def run(ctx):
             k += 1
     one_case(ctx, 2, 2, 2, zero_bias=True)
     one_case(ctx, 3, 1, 2, zero_bias=True)
+    random_near_range(ctx, 80 if ctx.thorough else 20)
 
 
 def search(ctx, broken, budget):
